@@ -145,6 +145,7 @@ Inductive label :=
 | Tau
 | LConnCall (regs : list out) (ping : bool)
 | LInit | LClosed | LDisc
+| LEnq (e : event)      (* readLoop put e into rx: internal, hidden from observers *)
 | LDeliver (e : event)
 | LReturn (r : err)
 | LCloseCall | LCloseRet
@@ -208,8 +209,9 @@ Definition step_read_gen (timers : bool) (s : state) : list (label * state) :=
          | LnBad _ :: r => [(Tau, group_err EParse (set_rpc RDone (set_inbuf r s)))]
          | [] => if peer_closed s || sock_closed s then [(Tau, group_err EIO (set_rpc RDone s))] else []
          end
-  | RRecv e =>
-      if timers || (length (rx s) <? cap) then [(Tau, set_rpc RTop (set_rx (enq (rx s) e) s))] else []
+  | RRecv e =>          (* Client.receive: queued when there is room, dropped by the 30 s timer else *)
+      if length (rx s) <? cap then [(LEnq e, set_rpc RTop (set_rx (rx s ++ [e]) s))]
+      else if timers then [(Tau, set_rpc RTop s)] else []
   | RDone => []
   end.
 Definition step_read := step_read_gen true.
@@ -313,7 +315,7 @@ Definition env_step (l : label) (s : state) : option state :=
 Definition step (s : state) (l : label) (s' : state) : Prop :=
   In (l, s') (sys_next s) \/ env_step l s = Some s'.
 
-(* weak executions: taus interleaved with the visible labels of `tr` *)
+(* weak executions: Tau steps interleaved with the non-Tau labels of `tr` *)
 Inductive wexec : state -> list label -> state -> Prop :=
 | wexec_nil s : wexec s [] s
 | wexec_tau s s1 tr s' : step s Tau s1 -> wexec s1 tr s' -> wexec s tr s'
@@ -394,6 +396,9 @@ Definition label_eqb (a b : label) : bool :=
   end.
 
 Definition is_tau (l : label) : bool := match l with Tau => true | _ => false end.
+(* what an observer of a session cannot see: Tau and the enqueue of the read loop *)
+Definition is_hidden (l : label) : bool := match l with Tau | LEnq _ => true | _ => false end.
+Definition visible (tr : list label) : list label := filter (fun l => negb (is_hidden l)) tr.
 
 Fixpoint mem_state (s : state) (l : list state) : bool :=
   match l with [] => false | x :: r => state_eqb s x || mem_state s r end.
@@ -459,7 +464,7 @@ Definition norm_linger (s : state) : state :=
 Definition norm (s : state) : state := norm_linger (norm_read (norm_exec (norm_ping s))).
 
 Definition tau_succs (s : state) : list state :=
-  map (fun p => norm (snd p)) (filter (fun p => is_tau (fst p)) (sys_next_gen false s)).
+  map (fun p => norm (snd p)) (filter (fun p => is_hidden (fst p)) (sys_next_gen false s)).
 
 (* breadth-first closure under Tau steps: acc = everything found so far *)
 Fixpoint tau_close_aux (fuel : nat) (frontier acc : list state) (seen : sset) : list state :=
@@ -495,6 +500,6 @@ Definition after (fuel : nat) (tr : list label) : list state :=
   let s0 := init (fold_right (fun l n => label_cost l + n) 0 tr) in
   run fuel tr (tau_close fuel [s0]).
 
-(* `tr` (visible labels only, no Tau) is a trace of the machine *)
+(* `tr` (visible labels only) is the visible part of a trace of the machine *)
 Definition accepts (fuel : nat) (tr : list label) : bool :=
-  if existsb is_tau tr then false else negb (is_nil (after fuel tr)).
+  if existsb is_hidden tr then false else negb (is_nil (after fuel tr)).
